@@ -25,16 +25,16 @@ CLAIMED = {
         text="Proved (modulo the assumed arraymap and structural label/option contracts): assemble -- cached wrappers, base_step, interval_step, both compound_steps, chain_swap_step and _denovo_assembler: every likelihood recorded in the cold trace equals LLK of the recorded genotype for every move sequence, temperature ladder and cache state. call -- log_likelihood_alleles_cached over the numba dict (coherence via injectivity of the G-field index and permutation invariance of the likelihood), gibbs_options, mh_options, compound_step, mcmc_sampler: every recorded likelihood equals LLKA of the recorded sorted genotype. Bounded: the assumed arraymap clauses on exhaustive operation sequences (growth, flush) vs a dict model; recorded llk == recomputed llk for assemble, call and every entry of a caller-supplied pedigree cache; cache on/off same trajectory.",
         design_ref="DESIGN.md 4 (C09)", note=BASE_NOTE + "arraymap.get/set are assumed contracts (R-checked); POSREADS: all likelihoods the sampler can meet are finite."),
     "C01": dict(category="other", technique='run-time contracts of the property evaluated on the real functions over enumerated / seeded bounded domains against oracles written from the property statement (bounded stand-in, never counted as proved)' + "; " + 'contract-based deductive verification: sidecar contracts on the real functions, VCs generated from /repo source by pyvc (loop invariants, ghost lemmas, callee contracts), discharged by z3' + " for base_step and the prior closed forms",
-        text="Bounded, exhaustive: for all ordered genotypes of small instances (ploidy<=4, <=3 SNVs, bi/tri-allelic, gaps, counts) x inbreeding {0,.3} x inverse temperature {1,.6}: base_step and interval_step probability vectors captured from the real kernels satisfy detailed balance w.r.t. (lik x prior)^t over unordered genotypes and depend on the genotype only as a multiset; exchange acceptance formula and state swap; orchestration arguments. Proved: base_step / interval_step vectors are probability distributions with the stated frames, chain_swap_acceptance formula and swap, _denovo_assembler keeps llks[t] == LLK(genotypes[t]) for every chain, assemble prior == (Dirichlet-)multinomial closed form.",
+        text="Bounded, exhaustive: for all ordered genotypes of small instances (ploidy<=4, <=3 SNVs, bi/tri-allelic, gaps, counts) x inbreeding {0,.3} x inverse temperature {1,.6}: base_step and interval_step probability vectors captured from the real kernels satisfy detailed balance w.r.t. (lik x prior)^t over unordered genotypes and depend on the genotype only as a multiset; exchange acceptance formula and state swap; orchestration arguments. Proved: base_step hands random_choice exactly the closed-form Metropolis-Hastings kernel exp(min(0, temp x (dllk + dlprior) + log(copies after/before)))/(n-1) with the prior a function of the genotype's haplotype dosage (get_haplotype_dosage strong contract); chain_swap_step accepts with min(1, exp((U_j-U_i)(T_i-T_j))) and that acceptance is in detailed balance for the product of tempered targets (lemma); base_step / interval_step vectors are probability distributions with the stated frames, _denovo_assembler keeps llks[t] == LLK(genotypes[t]) for every chain, assemble prior == (Dirichlet-)multinomial closed form.",
         design_ref="DESIGN.md 4 (C01)", note=BASE_NOTE + "Detailed balance per move => stationarity is mathematics outside the check (A6)."),
     "C02": dict(category="other", technique='contract-based deductive verification: sidecar contracts on the real functions, VCs generated from /repo source by pyvc (loop invariants, ghost lemmas, callee contracts), discharged by z3' + "; " + 'run-time contracts of the property evaluated on the real functions over enumerated / seeded bounded domains against oracles written from the property statement (bounded stand-in, never counted as proved)',
-        text="Proved for all inputs in the stated domain: gibbs_options gives allele a probability proportional to exp(LLKA(g[k:=a])) x the Polya-urn conditional of copy k ((alpha_a + copies among the others)/(sum alpha + P - 1); the frequency when F = 0), sums to one, restores the genotype; mh_options returns the closed-form Metropolis-Hastings vector (uniform proposal over the other alleles, acceptance min(1, posterior ratio x copies ratio)) summing to one; normalise_log_probs / sum_log_probs / add_log_prob; compound_step resamples every copy once. Bounded, exhaustive on small instances: Gibbs == exact full conditional of lik x joint prior, MH detailed balance, zero-frequency alleles, 70 haplotypes.",
+        text="Proved for all inputs in the stated domain: gibbs_options gives allele a probability proportional to exp(LLKA(g[k:=a])) x the Polya-urn conditional of copy k ((alpha_a + copies among the others)/(sum alpha + P - 1); the frequency when F = 0), sums to one, restores the genotype; mh_options returns the closed-form Metropolis-Hastings vector (uniform proposal over the other alleles, acceptance min(1, posterior ratio x copies ratio)) summing to one; normalise_log_probs / sum_log_probs / add_log_prob; compound_step resamples every copy once. Lemmas over those closed forms: the Polya-urn conditional is the exact conditional of the joint prior of the ordered allele vector (flat and with frequencies), hence the Gibbs vector is the exact full conditional of lik x prior / permutations; the MH vector satisfies detailed balance for the same target (permutation-count ratio via allele-indexed sums). Left to mathematics outside (A6): detailed balance => stationarity, projection to unordered genotypes. Bounded, exhaustive on small instances: the same identities numerically, zero-frequency alleles, single allele, 70 haplotypes.",
         design_ref="DESIGN.md 4 (C02)", note=BASE_NOTE),
     "C03": dict(category="other", technique='contract-based deductive verification: sidecar contracts on the real functions, VCs generated from /repo source by pyvc (loop invariants, ghost lemmas, callee contracts), discharged by z3' + "; " + 'run-time contracts of the property evaluated on the real functions over enumerated / seeded bounded domains against oracles written from the property statement (bounded stand-in, never counted as proved)',
         text="Proved against a ghost table GT of all genotypes in VCF order (exists by C11; the contracts hold for every such table): genotype_posteriors[i] is proportional to exp(llk_i + prior(GT[i])) and sums to one; _genotype_likelihoods[i] == LLKA(GT[i]); posterior_allele_frequencies == (ACNT/ploidy, ACNT, AOCC) functionals; _call_posterior_mode returns a maximiser of likelihood x prior and the log normalising constant over all genotypes; _posterior_allele_frequencies (streaming path) computes the same functionals of exp(log joint - log denominator). Bounded: Python wrappers and program.call_sample_genotypes (4 samples, mixed ploidy, 4 --report sets, 140 haplotypes) equal the independently enumerated posterior.",
         design_ref="DESIGN.md 4 (C03)", note=BASE_NOTE + "float32 GL tolerance 2e-5; exact ties skipped."),
     "C05": dict(category="other", technique='contract-based deductive verification: sidecar contracts on the real functions, VCs generated from /repo source by pyvc (loop invariants, ghost lemmas, callee contracts), discharged by z3' + " for the assemble prior; " + 'run-time contracts of the property evaluated on the real functions over enumerated / seeded bounded domains against oracles written from the property statement (bounded stand-in, never counted as proved)',
-        text="Proved: ln_equivalent_permutations, assemble null / Dirichlet-multinomial / genotype priors and the call genotype prior (flat and with frequencies) equal the lgamma closed forms; log_genotype_allele_prior equals the Polya-urn conditional; lemma: the assemble prior equals the call prior with flat frequencies over u haplotypes. Bounded: sums to one (ploidy up to 14, zero frequencies), conditional == exact conditional of the joint, every dosage partition, ploidy<=13(16), up to 2^150 haplotypes.",
+        text="Proved: ln_equivalent_permutations, assemble null / Dirichlet-multinomial / genotype priors and the call genotype prior (flat and with frequencies) equal the lgamma closed forms; log_genotype_allele_prior equals the Polya-urn conditional; lemmas: the assemble prior equals the call prior with flat frequencies over u haplotypes; the single-allele conditional is the exact conditional of the joint prior (flat and with positive frequencies). Bounded: sums to one (ploidy up to 14, zero frequencies), conditional == exact conditional of the joint, every dosage partition, ploidy<=13(16), up to 2^150 haplotypes.",
         design_ref="DESIGN.md 4 (C05)", note=BASE_NOTE),
     "C14": dict(category="exploration", technique='contract-based deductive verification: sidecar contracts on the real functions, VCs generated from /repo source by pyvc (loop invariants, ghost lemmas, callee contracts), discharged by z3' + "; " + 'run-time contracts of the property evaluated on the real functions over enumerated / seeded bounded domains against oracles written from the property statement (bounded stand-in, never counted as proved)',
         text="Proved: _posterior_frequencies returns the empirical mean allele counts / frequencies / occurrence over all retained steps of all chains; posterior_as_array places each observed probability at the VCF position of its genotype. Bounded (seeded random traces incl. 70-SNV loci, every burn-in, random within-genotype order): posterior, mode, mode support, G-ordered array, chain incongruence of GenotypeMultiTrace / GenotypeAllelesMultiTrace and mset helpers equal a multiset oracle. Known finding F9 (MCI 1-vs-2 depends on chain order) is reported as KNOWN-FINDING.",
